@@ -276,6 +276,16 @@ def run(ctx):
         cs = set().union(*[x[1] for x in srcs])
         C.check(any(c.endswith('ArxmlFile>::model') or c.endswith('ArxmlFile::model') for c in cs) and any(c.endswith('impl Element>::model') for c in cs), 'C10-MUST-samemodel', '%s|compares-file-model-with-element-model' % fn,
                 'the same-model test of %s does not compare file.model() with self.model()' % fn, b.where(eqs[0]))
+    # add_to_file: the file is one of the files of the model (a removed file still names its former model)
+    atf = P.get('Element::add_to_file')
+    eff = [pos for pos, s_ in atf.iter_stmts() if s_['k'] == 'assign' and ends_in_field(s_['dst'], 'ElementRaw.file_membership')] + calls(atf, r'impl Element>::add_to_file_restricted$')
+    anys = []
+    for x in [atf]:
+        for p_ in calls(x, r'Iterator>?::any$'):
+            if any(c.endswith('AutosarModel>::files') for c in deep_sources(x, x.blocks[p_[0]]['term']['args'][0], depth=10)[1]):
+                anys.append(p_)
+    C.check(bool(eff) and bool(anys) and all(any(guarded_by_true(atf, e_, a_) for a_ in anys) for e_ in eff), 'C10-MUST-samemodel', 'Element::add_to_file|file-is-listed-in-the-model', 'add_to_file restricts an element to a file without testing that the file is one of model.files(): a file that was removed from the model still refers to it, '
+            'so elements can become attributed to a file that does not belong to the model', '%s:%d' % (atf.file, atf.line), sample={'fn': 'add_to_file', 'guard': 'model.files().any(|f| f == *file)'})
     from c04 import callers_of
     ca = callers_of(P, 'Element::add_to_file_restricted')
     C.check(ca <= {'Element::add_to_file', 'Element::add_to_file_restricted', 'AutosarModel::create_file'}, 'C10-MUST-samemodel', 'add_to_file_restricted|callers', 'add_to_file_restricted (no model check of its own) has a new caller: %s' % sorted(ca))
